@@ -100,9 +100,29 @@ func init() {
 			total := countUpTo(len(ipv4Alpha), L)
 			rng := NewRng(c.Seed)
 			nr := 6000 * c.Scale
-			c.Pool.Run(total+nr, func(d *Driver, i int) {
+			// every tuple of 1-4 parts over a pool with signed and plain small decimals (a signed part is never a number)
+			var tuples []string
+			{
+				pool := []string{"0", "1", "255", "+1", "-1", "+0", "-10", "1+"}
+				var gen func(cur []string, n int)
+				gen = func(cur []string, n int) {
+					if len(cur) > 0 {
+						tuples = append(tuples, strings.Join(cur, "."))
+					}
+					if n == 0 {
+						return
+					}
+					for _, x := range pool {
+						gen(append(cur, x), n-1)
+					}
+				}
+				gen(nil, 4)
+			}
+			c.Pool.Run(total+nr+len(tuples), func(d *Driver, i int) {
 				var h string
-				if i < total {
+				if i >= total+nr {
+					h = tuples[i-total-nr]
+				} else if i < total {
 					h = nthString(ipv4Alpha, i)
 				} else {
 					r := rng.Fork(i)
@@ -224,10 +244,31 @@ func init() {
 					c.Report(Finding{Class: "violation", What: fmt.Sprintf("serialized address %q does not parse back to itself: %s", got, io.String()), Case: cs})
 				}
 			})
+			// embedded IPv4 tails: every prefix shape x every position of a boundary part (range, width of the integer type, syntax)
+			var tails []string
+			{
+				prefixes := []string{"::", "1:2:3:4:5:6:", "::ffff:", "1::", "1:2:3:4:5::", "::2:3:4:5:6:", "1:2:3:4:5:6:7:", "1:2:3:4:5:"}
+				bounds := []string{"0", "255", "256", "999", "1000", "00", "01", "", "a", "+1", "4294967296", "9223372036854775807", "9223372036854775808",
+					"92233720368547758085", "18446744073709551615", "18446744073709551616", "99999999999999999999999"}
+				for _, pre := range prefixes {
+					for _, np := range []int{3, 4, 5} {
+						for pos := 0; pos < np; pos++ {
+							for _, b := range bounds {
+								ps := []string{"1", "2", "3", "4", "5"}[:np]
+								ps = append([]string(nil), ps...)
+								ps[pos] = b
+								tails = append(tails, "["+pre+strings.Join(ps, ".")+"]")
+							}
+						}
+					}
+				}
+			}
 			// parser
-			c.Pool.Run(total+totalBr+nr, func(d *Driver, i int) {
+			c.Pool.Run(total+totalBr+nr+len(tails), func(d *Driver, i int) {
 				var host string // the host text including brackets
 				switch {
+				case i >= total+totalBr+nr:
+					host = tails[i-total-totalBr-nr]
 				case i < total:
 					host = "[" + nthString(v6Alpha, i) + "]"
 				case i < total+totalBr:
